@@ -26,6 +26,7 @@ EXPLANATION = (
     "numeric clauses: on every feasible returning path of str_to_num the value is sign x (whole + minutes/60 + seconds/3600) as a linear form "
     "in the captured fields (sign tests on linear forms are checked for feasibility, all magnitudes being >= 0); num_to_str renders a separate "
     "leading sign and computes every field from abs(n), and every field after a ':' is an integer bounded by 59 derived from one rounded total."
+    ' Imported C07.META: the number text a driver emits is num_to_str(current value, own format) under every history (no stale rendering after reset_value).'
 )
 NOT_DECIDED = "the numeric tolerance clauses: that rendered text denotes the value within the format's resolution and parses back within it (real arithmetic, out of reach for this family); of the sign convention and the carry only the structural halves above are decided."
 ASSUMPTIONS = [
